@@ -99,4 +99,47 @@ theorem C20_accepted_staking_leaves_no_residue (e : Env) (y : Sys) (op : Op)
       exact C20_undelegate_ok_resets e y.st s' y.global c v a hs
     · cases hok
 
+theorem redelegateDelegate_okResets (e : Env) (s : State) (g' : Dec) (v v2 : ValidatorV) (del : Addr) (src dst : ValAddr) (tokens : Int) :
+    okResets (redelegateDelegate e s g' v v2 del src dst tokens) := by
+  unfold redelegateDelegate
+  split
+  · simp [okResets, throw, throwThe, MonadExceptOf.throw]
+  · dsimp only
+    split
+    · simp [okResets, throw, throwThe, MonadExceptOf.throw]
+    · split
+      · simp [okResets, throw, throwThe, MonadExceptOf.throw]
+      · rename_i s4 g4 hv4
+        have hg4 : g4 = 0 := verifySuper_resets _ _ _ _ _ _ _ _ hv4
+        split <;> simp [okResets, pure, Except.pure, hg4]
+
+theorem redelegate_okResets (e : Env) (s : State) (g : Dec) (del : Addr) (src dst : ValAddr) (amt : Int) :
+    okResets (stakeRedelegate e s g del src dst amt) := by
+  unfold stakeRedelegate
+  split
+  · simp [okResets, throw, throwThe, MonadExceptOf.throw]
+  · split
+    · simp [okResets, throw, throwThe, MonadExceptOf.throw]
+    · split
+      · simp [okResets, throw, throwThe, MonadExceptOf.throw]
+      · exact redelegateDelegate_okResets _ _ _ _ _ _ _ _ _
+
+/-- the same for a redelegation: its second hook run (`AfterDelegationModified` on the destination) resets the variable -/
+theorem C20_redelegate_ok_resets (e : Env) (s s' : State) (g : Dec) (del : Addr) (src dst : ValAddr) (amt : Int)
+    (h : (stakeRedelegate e s g del src dst amt).2 = .ok s') : (stakeRedelegate e s g del src dst amt).1 = 0 := by
+  have := redelegate_okResets e s g del src dst amt
+  unfold okResets at this
+  split at this
+  · rename_i heq; rw [heq]; exact this
+  · rename_i heq; rw [heq] at h; cases h
+
+/-- at the level of `step` -/
+theorem C20_accepted_redelegation_leaves_no_residue (e : Env) (y : Sys) (c : Addr) (v w : ValAddr) (a : Int)
+    (hok : (step e y (.redelegate c v w a)).1 = .ok) : (step e y (.redelegate c v w a)).2.global = 0 := by
+  simp only [step, stepBase, stakeStep] at hok ⊢
+  split at hok
+  · rename_i s' hs
+    exact C20_redelegate_ok_resets e y.st s' y.global c v w a hs
+  · cases hok
+
 end SaoVerif
